@@ -878,6 +878,10 @@ class Interp:
         return self.unop(type(n.op), v)
 
     def unop(self, op, v):
+        if isinstance(v, Sym) and hasattr(v, "unop"):
+            out = v.unop(self, op)
+            if out is not NotImplemented:
+                return out
         if op is ast.Not:
             if isinstance(v, SBool):
                 return lift(z3.Not(v.t))
